@@ -117,8 +117,17 @@ func VerifC10WriteConvPipe() {
 	base := []string{"3", "", "#1", "bb1", "b7", "#11", "1", "8"}[vf.NondetIntRange("base", 0, 7)]
 	// the lyric text: plain, or one of the texts YAML printers and readers are known to
 	// stumble over (these go through the real library, concretely)
-	lyric := []string{"la", " lead", "trail ", "a: b", "#x", "- y", "~", "null", "two\nlines\n", "\n x", "\ttab", "it's \"q\"", "é\u3000"}[vf.NondetIntRange("lyric", 0, 12)]
+	lyrics := []string{"la", " lead", "trail ", "a: b", "#x", "- y", "~", "null", "two\nlines\n", "\n x", "\ttab", "it's \"q\"", "é\u3000", "end\n\n", "fine\u00a0", "\tla\nla", "\u2028la\nla", " la\nla", "la\n la\n"}
+	lyric := lyrics[vf.NondetIntRange("lyric", 0, len(lyrics)-1)]
 	doc := strings.Replace(verifDocBase(symbol, base), "    lic: la\n", "    lic: "+strconv.Quote(lyric)+"\n", 1)
+	// the piece may close with a rest that carries the same text: then the text is the very
+	// last thing `write conv` prints
+	closing := vf.NondetIntRange("lyric-also-on-a-closing-rest", 0, 1) == 1
+	n := 3
+	if closing {
+		doc += "- values:\n    - \"1\"\n  meta:\n    lic: " + strconv.Quote(lyric) + "\n"
+		n = 4
+	}
 	os.WriteFile(in, []byte(doc), 0o644)
 	vf.Assert("flags-parse", writeCmdConv.ParseFlags([]string{"--output", out, "--command", "cmt"}) == nil)
 	vf.Assert("conv-succeeds", writeCmdConv.RunE(writeCmdConv, []string{in}) == nil)
@@ -131,8 +140,12 @@ func VerifC10WriteConvPipe() {
 		return
 	}
 	vf.Assert("conv-output-means-the-same-music", verifSameInstances(orig.instances, again.instances))
-	vf.Assert("chord-text-added", len(again.instances) == 3 && again.instances[0].Meta != nil && again.instances[0].Meta.Get("txt") != "")
-	vf.Assert("lyric-text-survives-write-conv", len(again.instances) == 3 && again.instances[0].Meta != nil && again.instances[0].Meta.Get("lic") == lyric && orig.instances[0].Meta.Get("lic") == lyric)
+	vf.Assert("chord-text-added", len(again.instances) == n && again.instances[0].Meta != nil && again.instances[0].Meta.Get("txt") != "")
+	vf.Assert("lyric-text-survives-write-conv", len(again.instances) == n && again.instances[0].Meta != nil && again.instances[0].Meta.Get("lic") == lyric && orig.instances[0].Meta.Get("lic") == lyric)
+	if closing {
+		vf.Assert("closing-lyric-survives-write-conv", len(again.instances) == n && len(orig.instances) == n && again.instances[n-1].Meta != nil && orig.instances[n-1].Meta != nil &&
+			again.instances[n-1].Meta.Get("lic") == lyric && orig.instances[n-1].Meta.Get("lic") == lyric)
+	}
 	vf.Reach("end")
 }
 
